@@ -30,3 +30,12 @@ Proof. exact handle_never_out_of_fuel. Qed.
 Print Assumptions C01_handle_total.
 
 Check ex_pipeline_replies.
+
+(* over a socket: the per-connection loop of varlink::listen (bookkeeping read from server.rs) writes the
+   specification's output for the stream, for every segmentation - so the pipeline theorem above is what a client of
+   listen() observes *)
+From VL Require Import Worker WorkerFacts.
+Theorem C01_listen_worker_realises_spec : forall svc chunks fuel, (2 * length chunks + 2 <= fuel)%nat ->
+  src_worker svc fuel chunks = (spec_out svc (concat chunks), WFinished).
+Proof. exact src_worker_spec. Qed.
+Print Assumptions C01_listen_worker_realises_spec.
